@@ -48,16 +48,16 @@ class PauliString(AbstractOperator):
         # remove whitespace
         s = s.replace(' ', '')
         # remove a potential leading '+' sign
-        if s[0] == '+':
+        if s.startswith('+'):
             s = s[1:]
-        if s[0] == '-':
-            if s[1] == 'i':
+        if s.startswith('-'):
+            if s.startswith('-i'):
                 q = 1
                 s = s[2:]
             else:
                 q = 2
                 s = s[1:]
-        elif s[0] == 'i':
+        elif s.startswith('i'):
             q = 3
             s = s[1:]
         else:
